@@ -199,7 +199,9 @@ Inductive behav : Type :=
 | BItem (e : err)        (* stream-native: returns a stream  [chunk; error item e] *)
 | BRerun                 (* returns compose.InterruptAndRerun *)
 | BCancel                (* cancels the run's context and succeeds *)
-| BConvPanic (info : N). (* stream-native: returns a stream whose convert function panics when read *)
+| BConvPanic (info : N)  (* stream-native: returns a stream whose convert function panics when read *)
+| BPreFail (e : err)     (* the node's state pre-handler (invoke-native) returns e: no task of the step is started *)
+| BPostFail (e : err).   (* the body succeeds; the node's state post-handler (invoke-native) returns e *)
 
 Inductive tool : Type := TOk | TFail (e : err) | TPanic (info : N) | TConvPanic (info : N).
 
@@ -471,6 +473,53 @@ Definition branch_error (e : err) : err := new_graph_run_error (Wrapf (Wrapf (Wr
    conversion): that second panic is what the parent recovers — the original payload is lost. *)
 Definition masked_payload : N := 999999.
 
+(* State handlers (graph_manager.go: submit runs the pre-handlers of all tasks of a step on the run
+   loop's goroutine before any task starts, :305-313; waitOne runs the post-handler of a task that
+   ended without error, :362-370).  An invoke-native handler called in stream mode goes through
+   transformByInvoke: its input stream is read to the end first.
+
+   The post-handler: its failure is the task's error, "run node[k] post processor fail: %w". *)
+Definition with_post (stream : bool) (b : behav) (r : nres) : nres :=
+  match b with
+  | BPostFail e =>
+      match r with
+      | NOk [] _ => NErr [Wrapf (if stream then wrap_stream TransformByInvoke e else e)]
+      | NOk (IErr e0 :: _) _ => NErr [Wrapf (concat_fail TransformByInvoke e0)]
+      | NOk (ILazy _ :: _) _ => NFuel   (* the run loop itself would read a panicking stream: outside the model *)
+      | _ => r
+      end
+  | _ => r
+  end.
+
+(* The pre-handlers of one step: the error the run ends with when the pre-handler of the node with
+   key k fails — wrapGraphNodeError(k, "run node[k] pre processor fail: %w") since the repair of
+   F-C13e (before: newGraphRunError("failed to submit tasks: run node[k] pre processor fail: %w"),
+   no node named).  In stream mode the handler's wrapper reads the node's input stream first. *)
+Definition pre_error (stream : bool) (items : list item) (e : err) : err :=
+  if negb stream then e
+  else match items with
+       | [] => wrap_stream TransformByInvoke e
+       | it :: _ => consume (concat_fail TransformByInvoke) it
+       end.
+
+(* ... a stream that panics when read panics there, on the run loop's own goroutine: the panic
+   leaves the run *)
+Definition pre_panic (stream : bool) (items : list item) : option N :=
+  if stream then match items with ILazy i :: _ => Some i | _ => None end else None.
+
+Definition pre_fail_of (stream : bool) (items : list item) (n : node) : list err :=
+  match n with
+  | NLam k _ (BPreFail e) => [wrap_node k (Wrapf (pre_error stream items e))]
+  | _ => []
+  end.
+
+Definition pre_fails (stream : bool) (items : list item) (st : list node) : list err :=
+  flat_map (pre_fail_of stream items) st.
+
+(* before the repair of F-C13e *)
+Definition pre_fail_v4 (stream : bool) (items : list item) (e : err) : err :=
+  new_graph_run_error (Wrapf (Wrapf (pre_error stream items e))).
+
 Section Run.
   Variable F : forest.
   Variable stream : bool.
@@ -478,7 +527,7 @@ Section Run.
   (* one node of the frontier; [rec] runs a sub-graph (one nesting level down) *)
   Definition exec_node (rec : graph -> list item -> bool -> gres) (items : list item) (canc : bool) (n : node) : nres :=
     match n with
-    | NLam _ f b => exec_lambda stream items f b
+    | NLam _ f b => with_post stream b (exec_lambda stream items f b)
     | NTools _ ts => exec_tools stream items ts
     | NSub _ gi =>
         match nth_error F gi with
@@ -508,6 +557,12 @@ Section Run.
       else match k with
       | O => GFail [new_graph_run_error (Leaf id_exceed)]
       | S k' =>
+        match pre_fails stream items st with
+        | (_ :: _) as pf =>
+            (* some pre-handler of the step fails: the run fails before any task of the step starts;
+               which one is reported depends on the order of the task list *)
+            match pre_panic stream items with Some i => GPanic i | None => GFail pf end
+        | [] =>
         match stage_fold (map (fun n => (node_key n, exec_node rec items canc n)) st) [] canc [] false false with
         | SFail es => GFail es
         | SInt its =>
@@ -533,6 +588,7 @@ Section Run.
             end
           | _ => steps rec all loop br k' rest (out (width_of_first rest)) c
           end
+        end
         end
       end
     end.
